@@ -77,7 +77,7 @@ theorem qinv_prim {U : Universe} {s s' : St} (h : QInv s) (p : Prim U s s') : QI
   | enqueue ev args _ _ => simp only; rw [h, List.append_assoc]
   | setEnabled b => exact h
   | pop ev args q hq _ => simp only; rw [h, hq]; simp
-  | call r m args hs k _ _ => exact h
+  | call r m lm args hs k _ _ => exact h
   | unpin r =>
     obtain ⟨a, b, c, _⟩ := unpin_queue s r
     rw [a, b, c]; exact h
@@ -170,7 +170,7 @@ theorem dead_prim {U : Universe} {o : Obj} {c : Nat} {s s' : St} (h : Dead o c s
   | enqueue ev args _ _ => exact mk _ (fun _ h => h) (fun _ h => h) rfl
   | setEnabled b => exact mk _ (fun _ h => h) (fun _ h => h) rfl
   | pop ev args q _ _ => exact mk _ (fun _ h => h) (fun _ h => h) rfl
-  | call r m args hs k halive _ =>
+  | call r m lm args hs k halive _ =>
     have hne : r ≠ o := by
       intro e; subst e; rw [hd] at halive; exact absurd halive (by simp)
     refine ⟨?_, ?_⟩
@@ -219,7 +219,7 @@ theorem nonone_prim {U : Universe} {s s' : St} (h : NoNone s) (p : Prim U s s') 
   | enqueue ev args _ _ => exact h
   | setEnabled b => exact h
   | pop ev args q _ _ => exact h
-  | call r m args hs k _ _ =>
+  | call r m lm args hs k _ _ =>
     intro m' a hm
     simp only [List.mem_cons] at hm
     rcases hm with e' | hm
